@@ -57,6 +57,8 @@ def run(ctx, prefix="C03", set_explanation=True):
             return ("hole", s[2])
         if s[0] == "index" and P.strip(s[1]) == ("param", 2):
             return ("board", P.const_int(s[2]))
+        if s[0] == "cindex" and P.strip(s[1]) == ("param", 2):   # `let [b0, ..] = board` pattern
+            return ("board", s[2])
         return ("other", P.show_key(s))
 
     # ---- rule 1 ---------------------------------------------------------------------------
